@@ -16,3 +16,7 @@ package tracing
 //@   acquires {C20} SpansIndex.spansLk
 //@   modifies si.spans
 //@   guarantee [ends-only-this] forall k datatransfer.ChannelID :: (has(self.spans, k) <==> old(has(self.spans, k)) && k != chid)
+
+//@ func (*tracing.SpansIndex).EndAll {C20}
+//@   modifies si.spans
+//@   loop 0 invariant [all-spans] true
